@@ -23,14 +23,15 @@ def nodes(fmt, obj):
         if obj.release.is_layered:
             out.append((["ci.base_product"], "base_product", obj.base_product))
 
-        def walk(cont, child):
+        def walk(cont, depth):
             for k in sorted(cont.variants):
                 v = cont.variants[k]
-                out.append((["ci.variant"] + (["ci.childvariant"] if child else []), v.uid, v))
+                deep = depth >= 2 and set(_top(v).arches) - set(v.parent.arches)
+                out.append((["ci.variant"] + (["ci.childvariant"] if depth else []) + (["ci.grandchild"] if deep else []), v.uid, v))
                 if v.type == "layered-product":
                     out.append((["ci.vrelease"], v.uid, v.release))
-                walk(v, True)
-        walk(obj.variants, False)
+                walk(v, depth + 1)
+        walk(obj.variants, 0)
     elif fmt in ("images", "rpms", "modules", "extra_files"):
         out.append((["compose"] + (["compose+label"] if obj.compose.label else []), "compose", obj.compose))
         if fmt == "images":
@@ -55,7 +56,7 @@ def nodes(fmt, obj):
                 walk(v, True)
         walk(obj.variants, False)
         if obj.images.images:
-            out.append((["ti.images"], "images", obj.images))
+            out.append((["ti.images"] + (["ti.sharedimages"] if _shared_image(obj.images) else []), "images", obj.images))
         if obj.stage2.mainimage or obj.stage2.instimage:
             out.append((["ti.stage2"], "stage2", obj.stage2))
         if obj.media.discnum or obj.media.totaldiscs:
@@ -65,6 +66,22 @@ def nodes(fmt, obj):
     elif fmt == "discinfo":
         out.append((["di.discinfo"], "discinfo", obj))
     return out
+
+
+def _top(v):
+    while v.parent is not None:
+        v = v.parent
+    return v
+
+
+def _shared_image(images, last=False):
+    """(platform, name) of an image name listed under two platforms: the first (last) platform holding it, in table order."""
+    plats = list(images.images)
+    for name in sorted(set(n for p in plats for n in images.images[p])):
+        holders = [p for p in plats if name in images.images[p]]
+        if len(holders) > 1:
+            return (holders[-1] if last else holders[0]), name
+    return None
 
 
 def validate_all(fmt, obj, order):
@@ -118,6 +135,14 @@ def corrupt_object(fmt, obj, node_index, field, cls):
         tree.platforms.discard(tree.arch)
     elif cls == "foreign":
         node.arches = set(node.arches) | set(["s390x"])
+    elif cls == "foreign_ancestor":
+        extra = set(_top(node).arches) - set(node.parent.arches)
+        if not extra:
+            raise core.MachineryError("no architecture of the top-level ancestor is missing from the parent")
+        node.arches = set(node.arches) | extra
+    elif cls in ("absolute_shared", "absolute_shared_last"):
+        plat, name = _shared_image(node, last=cls.endswith("_last"))
+        node.images[plat][name] = "/abs/shared-name"
     elif cls == "nonempty":
         node.additional_variants = ["Client"]
     elif field == "image_paths":
@@ -184,8 +209,11 @@ def corrupt_document(fmt, text, obj, case):
         elif kind == "ti.images" and cls == "arch_unreferenced":
             arch = ini.p.get("tree", "arch")
             ini.p.set("tree", "platforms", ",".join(p for p in ini.p.get("tree", "platforms").split(",") if p != arch))
-        elif kind == "ti.images":
-            if field == "image_paths":
+        elif kind in ("ti.images", "ti.sharedimages"):
+            if cls in ("absolute_shared", "absolute_shared_last"):
+                plat, name = _shared_image(obj.images, last=cls.endswith("_last"))
+                ini.p.set("images-" + plat, name, "/abs/shared-name")
+            elif field == "image_paths":
                 sec = [s for s in ini.p.sections() if s.startswith("images-")][0]
                 ini.p.set(sec, ini.p.options(sec)[0], "/abs/boot.iso")
             else:
@@ -215,7 +243,7 @@ def corrupt_document(fmt, text, obj, case):
         node = pay["release"]
     elif kind == "ci.base_product":
         node = pay["base_product"]
-    elif kind in ("ci.variant", "ci.childvariant"):
+    elif kind in ("ci.variant", "ci.childvariant", "ci.grandchild"):
         node = pay["variants"][label]
     elif kind == "ci.vrelease":
         node = pay["variants"][label]["release"]
@@ -240,6 +268,10 @@ def corrupt_document(fmt, text, obj, case):
             n["uid"] = n["uid"].replace("-", "--", 1)
         elif cls == "foreign":
             n["arches"] = sorted(set(n["arches"]) | set(["s390x"]))
+        elif cls == "foreign_ancestor":
+            top = pay["variants"][[u for u in pay["variants"] if label.startswith(u + "-") and "-" not in u][0]]
+            par = pay["variants"][label.rsplit("-", 1)[0]]
+            n["arches"] = sorted(set(n["arches"]) | (set(top["arches"]) - set(par["arches"])))
         elif cls == "nonempty":
             n["additional_variants"] = ["Client"]
         elif cls == "int" and field == "date":
@@ -347,25 +379,26 @@ def enum_cases():
     import productmd.images as IM
     import productmd.treeinfo as TI
     out = []
-    for v in CI.COMPOSE_TYPES:
+    from . import enums as E
+    for v in E.COMPOSE_TYPES:
         out.append({"sample": "composeinfo_1", "variant": ["compose_type", v]})
-    for v in C.RELEASE_TYPES:
+    for v in E.RELEASE_TYPES:
         out.append({"sample": "composeinfo_1", "variant": ["release_type", v]})
         out.append({"sample": "composeinfo_1", "variant": ["bp_type", v]})
-    for v in CI.LABEL_NAMES:
+    for v in E.LABEL_NAMES:
         out.append({"sample": "composeinfo_1", "variant": ["label", v]})
-    for v in CI.VARIANT_TYPES:
+    for v in E.CI_VARIANT_TYPES:
         out.append({"sample": "composeinfo_1", "variant": ["variant_type", v]})
-    for v in C.RPM_ARCHES:
+    for v in E.RPM_ARCHES:
         out.append({"sample": "composeinfo_1", "variant": ["arch", v]})
         if v not in ("src", "nosrc"):
             out.append({"sample": "images_0", "variant": ["arch", v]})
         out.append({"sample": "treeinfo_1", "variant": ["arch", v]})
-    for v in IM.SUPPORTED_IMAGE_TYPES:
+    for v in E.SUPPORTED_IMAGE_TYPES:
         out.append({"sample": "images_0", "variant": ["image_type", v]})
-    for v in IM.SUPPORTED_IMAGE_FORMATS:
+    for v in E.SUPPORTED_IMAGE_FORMATS:
         out.append({"sample": "images_0", "variant": ["image_format", v]})
-    for v in TI.VARIANT_TYPES:
+    for v in E.TI_VARIANT_TYPES:
         out.append({"sample": "treeinfo_1", "variant": ["variant_type", v]})
     for fmt in samples.FORMATS:
         for shape in range(samples.NSHAPES[fmt]):
